@@ -72,7 +72,7 @@ P("C02", ["R14", "R15", "R16", "R12", "R08", "R09", "R10", "R43", "R47"],
   "conversions C01/C03 are right), float ties in the second-of-day.",
   [], [])
 
-P("C03", ["R13ab", "R11", "R04", "R07", "R12", "R39"],
+P("C03", ["R13ab", "R11", "R04", "R07", "R12", "R39", "R49"],
   "structural slot-group and dispatch-matrix checks, leap-table polarity, "
   "cache-key discipline",
   "(thin) R13a each to_*_date fills exactly its own slot group from the "
@@ -84,7 +84,8 @@ P("C03", ["R13ab", "R11", "R04", "R07", "R12", "R39"],
   "R11 the six leap-selected tables have the right polarity; R04 all "
   "mode-dependent memoised helpers are keyed on the live mode; R07 the two "
   "week-reference constants denote one January Monday and the leap rule is "
-  "the 4/100/400 fold.",
+  "the 4/100/400 fold; R49 the week<->calendar conversions can reach all "
+  "three calendar years / week-years a week-year overlaps.",
   "that the day counts of the conversions are right and mutually inverse - "
   "the property's main content is numeric; a runtime sweep over a 400-year "
   "cycle is the right tool and is outside this family.",
